@@ -80,6 +80,7 @@ typedef struct M_pixman_glyph_cache_t M_pixman_glyph_cache_t;
 int main(int argc, char **argv)
 {
     vf_init(argc, argv, "C17", "model_checking");
+    bfs_replay_adopt_tier();
     int th = vf_is_thorough();
     vf_rule = "cache half (E2): breadth-first search over canonical cache states (slot contents in {NULL, TOMBSTONE, key}, MRU order, freeze count, read white-box); "
               "one case = one transition (state, operation): the state is rebuilt by replaying its history on a fresh cache (rebuilt canonical form must equal the recorded one), "
@@ -92,13 +93,14 @@ int main(int argc, char **argv)
     vf_assume("duplicate keys, insert while not frozen, remove of an absent key, allocation failure (C15) are outside the alphabet");
     vf_assume("drawing reference uses pixman_image_composite32 itself for the final composite (operator arithmetic is C01's subject); the ADD-accumulated mask is computed by hand and cross-checked against the composite32(ADD) route");
     vf_assume("x86-64 back ends as selected by default (C02 covers the others)");
+    vf_assume("\"does not return\" = the same call is still in progress after 4 ms (quick) / 25 ms (thorough) of 1 ms timer ticks delivered to the running process (>= 10^6 probe steps on a table of <= 8 slots); each distinct (slot contents, key) is re-run alone once with 100 ms / 1000 ms before it is reported");
 
     wd_shared_init();
-    if (th) { wd_short_ms = 25; wd_long_ms = 1000; } else { wd_short_ms = 4; wd_long_ms = 200; }
+    if (th) { wd_short_ms = 25; wd_long_ms = 1000; } else { wd_short_ms = 4; wd_long_ms = 100; }
     { const char *e = getenv("C17_WD_SHORT_MS"); if (e) wd_short_ms = atoi(e); e = getenv("C17_WD_LONG_MS"); if (e) wd_long_ms = atoi(e); }
 
     s_run_cache_space(BFS_MAXDEPTH, 200000);
-    m_run_cache_space(th ? BFS_MAXDEPTH : 8, th ? 4000000 : 4000000);
+    m_run_cache_space(th ? BFS_MAXDEPTH : 10, 4000000);
 
     printf("watchdog: short %d ms, long %d ms, long confirmations run: %llu\n", wd_short_ms, wd_long_ms, (unsigned long long)wd_confirmed[WD_NCONF]);
 
@@ -115,7 +117,7 @@ int main(int argc, char **argv)
 
     vf_bounds = th ? "cache: small table (4 slots, HIGH 2, LOW 1, 5 keys with home slots 1,1,2,2,3) and medium table (8 slots, HIGH 4, LOW 2, 6 keys with home slots 5,5,5,6,6,7), both to the fixpoint, freeze count <= 2; "
                      "drawing: 0-3 glyphs (3x3, 5x2, 2x4) x 5 format combinations x 6 positions each x 4 clips x 6 operators x 3 sources x 3 destination formats x 2 offset sets x {no_mask, mask a1/a8/a8r8g8b8 x 2 rectangles}"
-                   : "cache: small table (4 slots, HIGH 2, LOW 1, 5 keys with home slots 1,1,2,2,3) to the fixpoint; medium table (8 slots, HIGH 4, LOW 2, 6 keys with home slots 5,5,5,6,6,7) to depth 8 (capped, reported); freeze count <= 2; "
+                   : "cache: small table (4 slots, HIGH 2, LOW 1, 5 keys with home slots 1,1,2,2,3) to the fixpoint; medium table (8 slots, HIGH 4, LOW 2, 6 keys with home slots 5,5,5,6,6,7) to depth 10 (capped, reported); freeze count <= 2; "
                      "drawing: 0-3 glyphs x 5 format combinations x 6 positions each (4 for the third glyph set) x 4 clips x 6 operators x 3 sources x 2 destination formats x 2 offset sets x {no_mask, mask a1/a8/a8r8g8b8 x 2 rectangles}";
     return vf_finish();
 }
